@@ -39,6 +39,7 @@ N_VARIANTS = 4
 NAN = float("nan")
 
 OBLIGATIONS = {
+    "pieces_segmented_again": "every piece of a split was segmented again into a marker name that did not exist yet",
     "marker_on_first": "a marker on the first fix",
     "marker_on_last": "a marker on the last fix (empty tail)",
     "adjacent_markers": "two consecutive marked fixes",
@@ -228,30 +229,30 @@ def _seg_track(variant, data, n):
     return t, names
 
 
-def _read_marker(t, n):
-    vals = t.getAnalyticalFeature("out")
+def _read_marker(t, n, out="out"):
+    vals = t.getAnalyticalFeature(out)
     if not isinstance(vals, list) or len(vals) != n:
         raise TypeError("marker column unreadable")
     return [_num(v) for v in vals]
 
 
-def judge_seg(key, t, names, data, thr, mode, scalar, case, ctx):
+def judge_seg(key, t, names, data, thr, mode, scalar, case, ctx, out="out"):
     """One segmentation() call on track t; compares the 'out' column and that nothing else changed. -> markers or None."""
     n = len(data[0])
     before = snap(t)
-    had_out = "out" in names_of(t)
+    had_out = out in names_of(t)
     col_before = names_of(t)
     if scalar:
-        st, r = guard(segmentation, t, names[0], "out", thr[0], MODES[mode])
+        st, r = guard(segmentation, t, names[0], out, thr[0], MODES[mode])
     else:
-        st, r = guard(segmentation, t, list(names), "out", list(thr), MODES[mode])
+        st, r = guard(segmentation, t, list(names), out, list(thr), MODES[mode])
     if st == "hang":
         ctx.violation(key + "does-not-return", case, r)
         return None
     if st == "exc":
         ctx.violation(key + "raises", case, r)
         return None
-    st, got = guard(_read_marker, t, n)
+    st, got = guard(_read_marker, t, n, out)
     if st != "ok":
         ctx.violation(key + "marker-feature-unreadable", case, got)
         return None
@@ -273,11 +274,11 @@ def judge_seg(key, t, names, data, thr, mode, scalar, case, ctx):
     # nothing else may change: positions, timestamps, the tested features
     after = snap(t)
     st, an = guard(names_of, t)
-    exp_names = col_before if had_out else col_before + ["out"]
+    exp_names = col_before if had_out else col_before + [out]
     if st != "ok" or an != exp_names:
         ctx.violation(key + "feature-list-changed", case, {"before": col_before, "after": an})
         return None
-    oc = exp_names.index("out")
+    oc = exp_names.index(out)
     strip = lambda S, drop: [r[:4] + (tuple(v for j, v in enumerate(r[4]) if j != drop),) for r in S]
     if strip(after, oc) != (strip(before, oc) if had_out else before):
         ctx.violation(key + "tested-features-or-positions-changed", case, detail)
@@ -343,6 +344,33 @@ def check_seq(variant, n, flat, thr_a, thr_b, mode, ctx):
     if sum(marks):
         ctx.oblige("split_after_segmentation")
     judge_split("split-after-segmentation/", t, snap(t), names_of(t), marks, case, ctx, source="out")
+    # ---- second level: every piece of the split is segmented in turn, into a marker name that does not exist yet ----
+    if not sum(marks):
+        return
+    st, col = guard(split, t, "out")
+    if st != "ok":
+        return                                    # judged above
+    st, k = guard(lambda: int(col.size()))
+    if st != "ok":
+        return
+    bounds_, begin = [], 0
+    for i, mk_ in enumerate(marks):
+        if mk_:
+            bounds_.append((begin, i))
+            begin = i + 1
+    if begin < n:
+        bounds_.append((begin, n - 1))
+    if k != len(bounds_):
+        return                                    # a wrong partition is reported by judge_split
+    ctx.oblige("pieces_segmented_again")
+    for j, (lo, hi) in enumerate(bounds_):
+        st, piece = guard(col.getTrack, j)
+        if st != "ok":
+            return
+        sub = [list(flat[lo:hi + 1])]
+        if judge_seg("segmentation/on-a-piece-of-a-split/", piece, names, sub, [thr_a], mode, False,
+                     dict(case, piece=j), ctx, out="lvl2") is None:
+            return
 
 
 # ---------------------------------------------------------------------------
